@@ -13,6 +13,25 @@
 //! formulation whether that value is present; if so the history is not part of
 //! the alphabet of this variant (pruned as `illegal`, never executed further).
 //! Every remaining Ok/Err difference between the twins is a violation.
+//!
+//! Enumeration: per pass (table `PASSES`), variant and preload, every well-formed
+//! sequence of the pass alphabet up to the pass depth, shortest first, each from
+//! fresh databases; a worker owns whole subtrees (first operation), so extensions
+//! of a violating history are pruned locally (stop at divergence).  The `full`
+//! passes use the whole alphabet; the other passes remove exactly the operations
+//! (or the one probe) that trigger a listed finding, so that the defect-free
+//! remainder is explored deeper.
+//!
+//! Signature: `C10/<variant>/<probe op>@<physical operator of twin A>/<preload>:<op pattern>/<kind>`
+//! (statement results: `C10/<variant>/stmt:<op>/…/<error|affected-count>`).  The op
+//! pattern is that of the greedily minimised history (drop operations, shrink the
+//! preload, substitute simpler operations) with key numbers dropped.  Kinds:
+//! missing-row / extra-row / mismatched-row (both) / error; suffix `(self)` when
+//! only the index-defeating formulation on twin A disagrees.
+//!
+//! Development aids (no effect on verdicts): `--opt pass= variant= preload= depth=`,
+//! `--opt dry=1` (enumeration sizes only), `--opt sizes=quick` (quick bounds under the
+//! thorough cap), `--opt timing=1`, env `C10_SQL="stmt;;stmt;;@x query"` (scratch shell).
 use checks::sqlh::*;
 use refmodel::val::{Row, V};
 use std::collections::{BTreeMap, BTreeSet, HashMap, HashSet};
@@ -778,7 +797,7 @@ const PASSES: &[Pass] = &[
     Pass {
         name: "ins-tx",
         ops: &[Ins1, Ins2, InsM, TX[0], TX[1], TX[2], TX[3], TX[4]],
-        depth: [(4, 5), (4, 5), (2, 3)],
+        depth: [(4, 5), (3, 5), (2, 3)],
         skip_probes: &["eq-and-gt-same-col"],
         skip_variants: &[],
         why: "no UPDATE / DELETE (KF-C10-03..08 break index maintenance for them) and no NULL (KF-C10-02): inserts in any key order under every transaction bracket",
@@ -802,7 +821,7 @@ const PASSES: &[Pass] = &[
     Pass {
         name: "unique-del",
         ops: &[Ins1, Ins2, InsM, Upd2, Del1, Del2, DelVal, Reins1, Begin, Commit, Rollback],
-        depth: [(3, 4), (3, 4), (1, 2)],
+        depth: [(3, 4), (2, 4), (1, 2)],
         skip_probes: &["eq-and-gt-same-col", "orderby"],
         skip_variants: &["sec", "sec_nopk", "comp", "partial", "text", "late", "droplate"],
         why: "PRIMARY KEY / UNIQUE variants without updates of the unique column (KF-C10-06): deletes, reinserts, non-key updates",
@@ -1129,7 +1148,7 @@ impl C10 {
             }
             self.one(ex, rep, pass, v, p, h, true, violating, illegal);
             *since_check += 1;
-            if *since_check >= 32 {
+            if *since_check >= 8 {
                 *since_check = 0;
                 if ex.ctx.expired() {
                     rep.capped(&format!("deadline in pass {} variant {} preload {} at length {}", pass.name, v.name, p.name(), len));
